@@ -24,6 +24,17 @@ func VerifRun_C15e() {
 			}
 		}
 	}
+	// a line the annotation parser rejects in the middle of the class block: the fields below it still belong
+	// to the class
+	if verifBool("rejectedLineInTheBlock") {
+		key := "---@field fb9 number\n"
+		for i := 0; i+len(key) <= len(src); i++ {
+			if src[i:i+len(key)] == key {
+				src = src[:i+len(key)] + "---@field style {width:number}\n" + src[i+len(key):]
+				break
+			}
+		}
+	}
 	mi := verifConcretize(verifRange("member", 0, len(c15eMembers)-1))
 	plen := verifConcretize(verifRange("typed", 0, 9))
 	name := c15eMembers[mi]
